@@ -1,11 +1,11 @@
 package props
 
 import (
-	"regexp"
 	"fmt"
 	"go/ast"
 	"go/token"
 	"go/types"
+	"regexp"
 	"strings"
 
 	"occheck/internal/engine"
@@ -160,8 +160,10 @@ func charConst(info *types.Info, e ast.Expr) string {
 	return ""
 }
 
-func escapeAgreement(c *engine.Ctx) {
-	o := c.Custom("C16.2", "K-tables(escape sets)", "renderer: names escape {'/', '\\'}, key values escape {']', '\\'}; parser: splitter cuts at unescaped '/' outside brackets, key parser stops at unescaped ']', both treat '\\' as escape",
+func escapeAgreement(c *engine.Ctx) { escapeAgreementAs(c, "C16.2") }
+
+func escapeAgreementAs(c *engine.Ctx, id string) {
+	o := c.Custom(id, "K-tables(escape sets)", "renderer: names escape {'/', '\\'}, key values escape {']', '\\'}; parser: splitter cuts at unescaped '/' outside brackets, key parser stops at unescaped ']', both treat '\\' as escape",
 		"what the renderer writes is exactly what the parser undoes: change one side only and some path no longer survives the round trip")
 	defer o.Done(3)
 	pkg := c.P.Pkg(pkgUtils)
